@@ -75,6 +75,18 @@ class Driver:
     def act(self, agent, model):
         from BPTK_Py import DelayedEvent, Event
 
+        # an agent may remove itself or an agent created before it while it acts (the agents after it must still get their turn)
+        if self.g < len(self.script):
+            order = list(self.live_at[self.g].keys())
+            for pos, back in self.script[self.g].get("actdel", []):
+                if order and order[pos % len(order)] == agent.id:
+                    idx = pos % len(order)
+                    victim = order[max(0, idx - back)]
+                    if model.agent(victim) is not None:
+                        model.delete_agent(victim)
+                        self.flags.add("delete")
+                        self.flags.add("delete-during-act")
+
         for s in self.plan.get(agent.id, []):
             if s.get("bcast"):
                 ty = s["bcast"]
@@ -312,7 +324,10 @@ def case_strategy(max_steps):
         )
         script = []
         for g in range(nsteps):
-            script.append({"sends": draw(st.lists(send, max_size=4)), "gap": draw(st.lists(gap, max_size=2))})
+            step_ = {"sends": draw(st.lists(send, max_size=4)), "gap": draw(st.lists(gap, max_size=2))}
+            if draw(st.integers(0, 4)) == 0:
+                step_["actdel"] = [[draw(st.integers(0, 5)), draw(st.integers(0, 2))]]
+            script.append(step_)
         case = {"mode": mode, "dt": dt, "pop": pop, "script": script, "collect": draw(st.booleans())}
         if mode == "run":
             case["rounds"] = rounds
